@@ -109,7 +109,8 @@ inductive TxKind where
 
 /-- where the `finally` callback deletes from -/
 inductive TxKey where
-  | byId (mid : UInt16)
+  | byId (mid : UInt16)           -- store of client-initiated exchanges
+  | byIdB (mid : UInt16)          -- store of broker- / gateway-initiated exchanges
   | connectType
   deriving Repr, DecidableEq
 
@@ -147,7 +148,8 @@ structure Gw where
   buffer : List BufItem := []
   txs : List Tx := []
   nextTx : Nat := 0
-  byId : List (UInt16 × Nat) := []              -- store: message ID ↦ transaction id
+  byId : List (UInt16 × Nat) := []              -- h.transactions: client's message ID ↦ transaction id
+  byIdB : List (UInt16 × Nat) := []             -- h.brokerTransactions: broker's / gateway's message ID ↦ transaction id
   connectTx : Option Nat := none                 -- store: by packet type CONNECT
   pingers : List Pinger := []
   outs : List (Nat × Out) := []                  -- newest first, with timestamps
@@ -175,7 +177,10 @@ def setTx (g : Gw) (t : Tx) : Gw := { g with txs := g.txs.map fun x => if x.id =
     under it by now -/
 def runFinally (g : Gw) (t : Tx) : Gw :=
   match t.key with
-  | .byId mid => { g with byId := g.byId.filter (·.1 != mid) }
+  | .byId mid =>
+    if g.byId.lookup mid = some t.id then { g with byId := g.byId.filter (·.1 != mid) } else g
+  | .byIdB mid =>
+    if g.byIdB.lookup mid = some t.id then { g with byIdB := g.byIdB.filter (·.1 != mid) } else g
   | .connectType => { g with connectTx := none }
 
 /-- `Success()` / `Fail(e)`: stop the timer, run `finally` once -/
@@ -247,6 +252,8 @@ def newTx (g : Gw) (kind : TxKind) (key : TxKey) (timer : Option Nat) : Nat × G
 
 def storeById (g : Gw) (mid : UInt16) (tx : Nat) : Gw := { g with byId := (mid, tx) :: g.byId }
 def lookupById (g : Gw) (mid : UInt16) : Option Tx := (g.byId.lookup mid).bind g.getTx
+def storeByIdB (g : Gw) (mid : UInt16) (tx : Nat) : Gw := { g with byIdB := (mid, tx) :: g.byIdB }
+def lookupByIdB (g : Gw) (mid : UInt16) : Option Tx := (g.byIdB.lookup mid).bind g.getTx
 
 /-- `RetryTransaction.Proceed(state, data)`: new state and data, retry counter reset, timer
     re-armed — unless the transaction is finished already (a finished transaction stays finished) -/
@@ -519,7 +526,7 @@ def freeMsgId (g : Gw) : Nat → Option UInt16
   | 0 => none
   | n + 1 =>
     let i := UInt16.ofNat (n + 1)
-    if (g.byId.lookup i).isNone then some i else freeMsgId g n
+    if (g.byIdB.lookup i).isNone then some i else freeMsgId g n
 
 /-- topic ID and type under which the client knows a broker topic name; `none` when the name
     needs a REGISTER first -/
@@ -538,7 +545,7 @@ def bpMsgId (g : Gw) (qos : UInt8) (mid : UInt16) : Option UInt16 :=
 /-- create a broker-publish transaction, store it by message ID and send its first packet -/
 def startBrokerPub (g : Gw) (qos : UInt8) (msgId : UInt16) (st0 : BpSt) (snp : Option Pkt) (st : BpSt)
     (first : Pkt) : Gw :=
-  (((g.newTx (.brokerPub qos st0 .none snp 0) (.byId msgId) none).2.storeById msgId g.nextTx).proceedSN
+  (((g.newTx (.brokerPub qos st0 .none snp 0) (.byIdB msgId) none).2.storeByIdB msgId g.nextTx).proceedSN
     g.nextTx st first)
 
 def handleBrokerPublish (g : Gw) (dup : Bool) (qos : UInt8) (retain : Bool) (mid : UInt16)
@@ -614,13 +621,13 @@ def handleSn (g : Gw) (p : Pkt) : Gw :=
   | .pingreq _ => g.handlePingreq
   | .disconnect d => g.handleDisconnect d
   | .regack _ mid rc =>
-    match g.lookupById mid with
+    match g.lookupByIdB mid with
     | some t => match t.kind with
       | .brokerPub q st data snp _ => g.bpRegack t q st data snp rc
       | _ => g
     | none => g
   | .puback _ mid rc =>
-    match g.lookupById mid with
+    match g.lookupByIdB mid with
     | some t => match t.kind with
       | .brokerPub 1 st _ _ _ =>
         if st ≠ .awaitingPuback then g
@@ -629,14 +636,14 @@ def handleSn (g : Gw) (p : Pkt) : Gw :=
       | _ => g
     | none => g
   | .pubrec mid =>
-    match g.lookupById mid with
+    match g.lookupByIdB mid with
     | some t => match t.kind with
       | .brokerPub 2 st _ _ _ =>
         if st ≠ .awaitingPubrec then g else g.proceedMQ t.id .awaitingPubrel (.pubrec mid)
       | _ => g
     | none => g
   | .pubcomp mid =>
-    match g.lookupById mid with
+    match g.lookupByIdB mid with
     | some t => match t.kind with
       | .brokerPub 2 st _ _ _ =>
         if st ≠ .awaitingPubcomp then g else g.proceedMQ t.id .done (.pubcomp mid)
@@ -674,7 +681,7 @@ def handleMq (g : Gw) (p : MqPkt) : Gw :=
   | .pingresp => if g.st ≠ .active then g else g.snSend .pingresp
   | .publish dup q r mid topic payload => g.handleBrokerPublish dup q r mid topic payload
   | .pubrel mid =>
-    match g.lookupById mid with
+    match g.lookupByIdB mid with
     | some t => match t.kind with
       | .brokerPub 2 st _ _ _ =>
         if st ≠ .awaitingPubrel then g else g.proceedSN t.id .awaitingPubcomp (.pubrel mid)
